@@ -66,6 +66,7 @@ class Unit:
         self.rlimit = 10      # Verus --rlimit for this unit (default 10)
         self.extract_failed = {}  # fn -> message: body could not be extracted; emitted as assumed stub
         self.hints_lost = {}  # fn -> [messages]: proof scaffolding whose anchor no longer exists
+        self.probes = []      # reachability probes of the probe run (vacuity="probe")
         self.template = None
 
     def text(self):
@@ -133,11 +134,19 @@ def _split_args(toks, lo, hi):
 
 
 class BodyEmitter:
-    def __init__(self, unit, sf, fn_name, replace, insert):
+    def __init__(self, unit, sf, fn_name, replace, insert, probe_after=None):
         self.u, self.sf, self.fn = unit, sf, fn_name
         self.replace = replace    # tok index -> (end_tok_exclusive, text, kind, tline)
         self.insert = insert      # tok index -> list of (text, tline)   (inserted before that token)
+        self.probe_after = probe_after or set()   # token indices (`;` or the body's `{`) after which a reachability probe goes
         self.out = []
+
+    def _probe(self, i):
+        t = self.sf.toks[i]
+        pid = len(self.u.probes)
+        line = self.sf.text.count("\n", 0, t.start) + 1
+        self.u.probes.append({"id": pid, "fn": self.fn, "file": self.sf.path, "line": line})
+        self.out.append(Seg(" if verif_vac_probe() { assert(false); } ", "probe", {"fn": self.fn, "probe": pid, "repo_line": line}))
 
     def _verb(self, a, b):
         if b > a:
@@ -170,6 +179,12 @@ class BodyEmitter:
                                                    "repo_line": self.sf.text.count("\n", 0, t.start) + 1}))
                 cur = toks[j - 1].end
                 i = j
+                continue
+            if i in self.probe_after:
+                self._verb(cur, t.end)
+                cur = max(cur, t.end)
+                self._probe(i)
+                i += 1
                 continue
             if (t.kind == "id" and i + 2 < hi and toks[i + 1].text == "!" and toks[i + 2].text in ("(", "[", "{")
                     and t.text in FMT_STRING_MACROS | FMT_WRITE_MACROS | LOG_MACROS):
@@ -208,6 +223,49 @@ class BodyEmitter:
                 continue
             i += 1
         return cur
+
+
+def _probe_points(toks, ob, cb, replace):
+    """token indices after which a reachability probe `if verif_vac_probe() { assert(false); }` is placed: the opening
+    brace of the body and every statement-ending `;` whose innermost bracket is a `{` block (not a struct literal /
+    match / closure-less expression context is not distinguished: a `;` only occurs in blocks), except after
+    statements that leave (return / break / continue) and inside replaced token ranges or closures."""
+    pts = {ob}
+    skip_until = -1
+    stack = []          # (bracket, index of first token of the current statement at this level)
+    first = None
+    closure_depth = []  # stack depths at which a closure body started
+    i = ob
+    while i <= cb:
+        if i in replace:
+            i = replace[i][0]
+            continue
+        t = toks[i]
+        x = t.text
+        if t.kind == "punct" and x in rustlex.OPEN:
+            # a `{` right after `|...|` or `move |..|` starts a closure body: no probes inside
+            is_closure = x == "{" and i > ob and toks[i - 1].text == "|"
+            stack.append([x, None, bool(is_closure or (len(stack) > 0 and stack[-1][2]))])
+        elif t.kind == "punct" and x in rustlex.CLOSE:
+            if stack:
+                stack.pop()
+            if stack:
+                # a `}` ends a block-like statement: next token starts a new statement
+                if x == "}" and stack[-1][0] == "{":
+                    stack[-1][1] = None
+        elif stack:
+            top = stack[-1]
+            if top[0] == "{":
+                if x == ";":
+                    st = top[1]
+                    leaving = st is not None and toks[st].text in ("return", "break", "continue")
+                    if not top[2] and not leaving and len(stack) >= 1:
+                        pts.add(i)
+                    top[1] = None
+                elif top[1] is None:
+                    top[1] = i
+        i += 1
+    return pts
 
 
 def _pattern_tokens(pat_text):
@@ -319,10 +377,18 @@ def expand(template_path, repo, vacuity=False):
     i = 0
     buf, buf_line = [], 1
 
+    probe_decl = [vacuity == "probe"]
+
     def flush():
         nonlocal buf, buf_line
         if buf:
-            unit.segs.append(Seg("\n".join(buf) + "\n", "template", {"tline": buf_line}))
+            text = "\n".join(buf) + "\n"
+            if probe_decl[0] and re.search(r"^verus!\s*\{\s*$", text, re.M):
+                # the arbitrary boolean guarding each reachability probe
+                text = re.sub(r"^(verus!\s*\{\s*)$", r"\1\n#[verifier::external_body] pub fn verif_vac_probe() -> bool { unimplemented!() }",
+                              text, count=1, flags=re.M)
+                probe_decl[0] = False
+            unit.segs.append(Seg(text, "template", {"tline": buf_line}))
         buf = []
 
     while i < len(tlines):
@@ -455,7 +521,7 @@ def expand(template_path, repo, vacuity=False):
                 # vacuity probe: a copy of the function (calling the *real* callees) with `ensures false`
                 vopts = dict(opts)
                 vopts["as"] = opts.get("as", name) + "__vac"
-                _emit_fn(unit, repo, rel, scope, name, vopts, flags + ["vac_copy"], contract, directives, True,
+                _emit_fn(unit, repo, rel, scope, name, vopts, flags + ["vac_copy"], contract, directives, vacuity,
                          template_path)
             continue
         raise GenError("%s:%d: unknown directive %s" % (template_path, i + 1, d))
@@ -618,7 +684,7 @@ def _emit_fn(unit, repo, rel, scope, name, opts, flags, contract, directives, va
         label, props = labels[k] if labels[k] else (None, [])
         m = _LABEL.search(cl)
         text = cl
-        if vacuity and not vac_done:
+        if vacuity and vacuity != "probe" and not vac_done:
             if has_ens and re.search(r"\bensures\b", cl):
                 text = re.sub(r"\bensures\b", "ensures false,", cl, count=1)
                 vac_done = True
@@ -629,7 +695,7 @@ def _emit_fn(unit, repo, rel, scope, name, opts, flags, contract, directives, va
                              {"fn": qual, "tline": tline, "label": label, "props": props}))
         if m and not vacuity:
             unit.clauses.append({"fn": qual, "label": label, "props": props, "text": cl.split("//#")[0].strip()})
-    if vacuity and not vac_done:
+    if vacuity and vacuity != "probe" and not vac_done:
         unit.segs.append(Seg("    ensures false,\n", "contract", {"fn": qual, "tline": 0, "label": "VACUITY", "props": []}))
 
     if "stub" in flags:
@@ -712,7 +778,10 @@ def _emit_fn(unit, repo, rel, scope, name, opts, flags, contract, directives, va
                 unit.clauses.append({"fn": qual, "label": m.group(1), "props": [p for p in (m.group(2) or "").split(",") if p],
                                      "text": rep.split("//#")[0].strip()})
 
-    be = BodyEmitter(unit, sf, qual, replace, insert)
+    probe_after = set()
+    if vacuity == "probe" and "vac_copy" in flags:
+        probe_after = _probe_points(toks, ob, cb, replace)
+    be = BodyEmitter(unit, sf, qual, replace, insert, probe_after)
     cur = be.emit(ob, cb + 1, toks[ob].start)
     be._verb(cur, toks[cb].end)
     unit.segs.extend(be.out)
